@@ -26,7 +26,7 @@ KEYS = ["a", "b", "opts", "k_1"]
 
 
 def spell(r, k):
-    return r.choice([{"cls": k}, f"comp{k}", f"verifmods:Comp{k}"])
+    return r.choice([{"cls": k}, f"comp{k}", f"verifpkg.mods:Comp{k}"])
 
 
 def gen_kwargs(r, depth=1):
@@ -38,7 +38,7 @@ def gen_kwargs(r, depth=1):
 
 def gen_alias(r, k, used):
     for _ in range(10):
-        base = r.choice([f"comp{k}", f"comp{k}", f"verifmods:Comp{k}", r.choice(["db", "web", "x1"])])
+        base = r.choice([f"comp{k}", f"comp{k}", f"verifpkg.mods:Comp{k}", r.choice(["db", "web", "x1"])])
         alias = base + ("/" + r.choice(["main", "second", "n_2"]) if r.random() < 0.4 else "")
         if alias not in used:
             used.add(alias)
@@ -57,7 +57,7 @@ def gen_table(r):
             for _ in range(r.choice([0, 0, 1, 1, 2])):
                 ck = r.randrange(k + 1, N)
                 alias = gen_alias(r, ck, used)
-                t = None if alias.split("/")[0] in (f"comp{ck}", f"verifmods:Comp{ck}") and r.random() < 0.5 else spell(r, ck)
+                t = None if alias.split("/")[0] in (f"comp{ck}", f"verifpkg.mods:Comp{ck}") and r.random() < 0.5 else spell(r, ck)
                 kids.append([alias, {"type": t, "kwargs": gen_kwargs(r)}])
         table[str(k)] = kids
     return table
@@ -100,8 +100,8 @@ def gen_ext(r, table, k, depth):
             ck = r.randrange(min(k + 1, N - 1), N)
             alias = gen_alias(r, ck, used)
             c = gen_kwargs(r)
-            if alias.split("/")[0] not in (f"comp{ck}", f"verifmods:Comp{ck}") or r.random() < 0.5:
-                c["type"] = spell(r, ck) if r.random() > 0.06 else r.choice(["nope", "notcomp", "verifmods:Missing", 7])
+            if alias.split("/")[0] not in (f"comp{ck}", f"verifpkg.mods:Comp{ck}") or r.random() < 0.5:
+                c["type"] = spell(r, ck) if r.random() > 0.06 else r.choice(["nope", "notcomp", "verifpkg.mods:Missing", 7])
             elif r.random() < 0.15:
                 c = None
             if c is not None and r.random() < 0.4 and ck < N - 1:
@@ -118,7 +118,7 @@ def class_of_type(t, alias):
     if isinstance(t, str):
         t = t.split("/")[0]
         for k in range(N):
-            if t in (f"comp{k}", f"verifmods:Comp{k}"):
+            if t in (f"comp{k}", f"verifpkg.mods:Comp{k}"):
                 return k
     return None
 
